@@ -9,6 +9,8 @@ for the triangle inequality, all composite shapes.
 import itertools
 import warnings
 
+import math
+
 import numpy as np
 
 from mc import lattice
@@ -312,6 +314,103 @@ def case_shape(case):
 
 
 # ------------------------------------------------------------------------------------------
+# far points: the open ball is not only |k| <= 0.99.  A point at hyperbolic distance R from the origin in
+# direction u has, in closed form, hyperboloid (cosh R, sinh R u), Klein tanh(R) u, Poincare tanh(R/2) u;
+# these oracle coordinates are computed from (R, u) directly, so they are well conditioned for large R.
+# ------------------------------------------------------------------------------------------
+FAR_RADII = [3.0, 5.0, 7.0, 9.0, 12.0]
+FAR_START = ["hyperboloid", "projective", "poincare", "halfspace", "klein"]
+
+
+def far_oracle(R, u):
+    u = np.asarray(u, dtype=float)
+    hb = np.concatenate([[math.cosh(R)], math.sinh(R) * u])
+    po = math.tanh(R / 2.0) * u
+    return {"hyperboloid": hb, "projective": -0.3 * hb, "klein": math.tanh(R) * u, "poincare": po,
+            "halfspace": hyp.poincare_to_halfspace(po)}
+
+
+def far_dist(R1, u1, R2, u2):
+    """Closed-form distance; partners are either on the same ray (exact |R1-R2|) or in a direction at least
+    0.5 rad away (then the law of cosines is well conditioned)."""
+    c = float(np.dot(u1, u2))
+    if R1 == 0.0 or R2 == 0.0:
+        return abs(R1 - R2) if (R1 == 0.0 and R2 == 0.0) else max(R1, R2)
+    if c > 1.0 - 1e-12:
+        return abs(R1 - R2)
+    x = math.cosh(R1) * math.cosh(R2) - math.sinh(R1) * math.sinh(R2) * c
+    return math.acosh(max(x, 1.0))
+
+
+def case_far(case):
+    n, R, u, start = case["n"], case["R"], np.array(case["u"], dtype=float), case["start"]
+    want = far_oracle(R, u)
+    v, t = [], 0
+    pt = build(want[start], start)
+    where = "H^%d point at distance %g in direction %s, built from its %s coordinates" % (n, R, u.round(4).tolist(), start)
+    # conditioning: recovering 1-|k|^2 = 1/cosh^2 R from rounded Klein (or Poincare) coordinates costs eps*cosh^2 R
+    # relative; start models that store the point that way are only required to that accuracy
+    cond = 1.0 + 4e-6 * math.cosh(R) ** 2        # eps * cosh^2 R / 1e-9, with a factor 10 of head-room
+    for m in list(hyp.MODELS) + ["poincare"]:
+        got = np.asarray(pt.coords(m), dtype=float)
+        t += 1
+        w = want["hyperboloid" if m == "projective" else m]
+        if got.shape != w.shape or not np.all(np.isfinite(got)):
+            v.append({"key": "far/coords-type/%s" % m, "msg": "%s: coords(%s) = %r" % (where, m, got.tolist())})
+            continue
+        if m == "projective":
+            err, tol = float(hyp.proj_diff(got, w)), 1e-9 * cond
+        elif m == "hyperboloid":
+            err = float(min(np.max(np.abs(got - w)), np.max(np.abs(got + w)))) / float(np.max(np.abs(w)))
+            tol = 1e-9 * cond
+        else:
+            err = float(np.max(np.abs(got - w)))
+            tol = 1e-9 * (1.0 + float(np.max(np.abs(w)))) ** 2 * cond
+        if not err <= tol:
+            v.append({"key": "far/coords/%s/from-%s" % (m, start),
+                      "msg": "%s: coords(%s) = %r, closed form %r (error %.3g, tol %.1g)" % (where, m, got.tolist(), w.tolist(), err, tol)})
+    # distances to the partners, against the closed form and each model's own metric on oracle coordinates
+    for (R2, u2) in case["partners"]:
+        u2 = np.array(u2, dtype=float)
+        w2 = far_oracle(R2, u2)
+        d0 = far_dist(R, u, R2, u2)
+        other = build(w2["hyperboloid"], "hyperboloid")
+        got = float(pt.distance(other))
+        got2 = float(other.distance(build(want[start], start)))
+        t += 2
+        tol = 1e-9 * (1.0 + d0) * (cond + 4e-6 * math.cosh(R2) ** 2)
+        if not (abs(got - d0) <= tol and abs(got2 - d0) <= tol):
+            v.append({"key": "far/distance/from-%s" % start, "msg": "%s: distance to the point at distance %g in direction %s is %r / %r, closed form %r" % (
+                where, R2, u2.round(4).tolist(), got, got2, d0)})
+        for m, f in (("klein", hyp.dist_klein), ("poincare", hyp.dist_poincare), ("halfspace", hyp.dist_halfspace)):
+            # the model's own closed-form metric evaluated on the LIBRARY's coordinates of both points
+            a = np.asarray(pt.coords(m), dtype=float)
+            b = np.asarray(other.coords(m), dtype=float)
+            t += 2
+            dm = float(f(a, b))
+            # Klein/Poincare/half-space metrics recover 1-|k|^2 etc. from rounded coordinates: eps*cosh^2 conditioning
+            tolm = (1e-9 + 1e-14 * (math.cosh(R) ** 2 + math.cosh(R2) ** 2)) * (1.0 + d0)
+            if not abs(dm - d0) <= tolm:
+                v.append({"key": "far/model-metric/%s" % m, "msg": "%s: %s closed-form metric on the library's coordinates gives %r, distance is %r" % (where, m, dm, d0)})
+    return {"v": v, "t": t, "o": "%d|%g|%s|%d" % (n, R, start, len(v)), "nt": True}
+
+
+def far_cases(dims, seed, q):
+    for n in dims:
+        dirs = [d.tolist() for d in lattice.ideal_dirs(n, 2 if q else 6, seed)]
+        pts = [(R, u) for R in FAR_RADII for u in dirs[:3 if q else 8]]
+        for (R, u) in pts:
+            # partners: the origin, a nearer point on the same ray, and far points in directions >= 0.5 rad away
+            partners = [(0.0, u), (1.0, u), (R + 2.0, u)]
+            for d in dirs:
+                if float(np.dot(d, u)) < math.cos(0.5):
+                    partners += [(7.0, d), (2.0, d)]
+                    break
+            for start in FAR_START:
+                yield {"n": n, "R": R, "u": u, "start": start, "partners": [[r, d] for r, d in partners]}
+
+
+# ------------------------------------------------------------------------------------------
 def run(ctx):
     q = ctx.quick
     seed = ctx.seed
@@ -363,6 +462,13 @@ def run(ctx):
     ctx.product("metric-triples", "checks.c01:case_triangle", cases, chunk=1,
                 domains={"dimensions": dims, "triples per case": {n: len(lat[n][0]) ** 3 for n in dims},
                          "variant shifts": len(VARIANTS)})
+
+    fdims = [1, 2, 3] if q else [1, 2, 3, 4]
+    ctx.product("far-points", "checks.c01:case_far", list(far_cases(fdims, seed, q)), chunk=8,
+                domains={"dimensions": fdims, "hyperbolic radii": FAR_RADII, "start models": FAR_START,
+                         "oracle": "closed forms in (R, u): (cosh R, sinh R u), tanh(R) u, tanh(R/2) u"})
+    ctx.tolerances["far points"] = ("1e-9 scaled by max(1, 1e-7 cosh^2 R) when the point is GIVEN in Klein/Poincare/half-space coordinates "
+                                    "(1-|k|^2 = 1/cosh^2 R is then only known to eps cosh^2 R); exact class from hyperboloid coordinates")
 
     shapes = lattice.SHAPES_QUICK if q else lattice.shapes()
     cases = []
